@@ -35,3 +35,133 @@ for _n, _spec in LEAVES.items():
              target=closure("microjs.vm", "VM._make_string_method", INNER.get(_n, _n)),
              env=("s",), native=_native(_n), summaries=SUMM, bind={"SPEC": _spec},
              timeout_ms=(45000 if _n in ("slice", "lastIndexOf", "substring") else 10000))
+
+
+# ---- bounded: the methods whose pattern is a STRING and that loop over the receiver (split, replace, replaceAll, concat) ----
+from pyvc import groups      # noqa: E402
+from pyvc.groups import ob   # noqa: E402
+
+
+def _subst(template, matched, pos, subject):
+    """22.1.3.19.1 GetSubstitution with no captures and no named groups: $$ $& $` $' are replaced, $n and $< stay as written"""
+    out, i = [], 0
+    while i < len(template):
+        c = template[i]
+        if c == "$" and i + 1 < len(template):
+            d = template[i + 1]
+            if d == "$":
+                out.append("$"); i += 2; continue
+            if d == "&":
+                out.append(matched); i += 2; continue
+            if d == "`":
+                out.append(subject[:pos]); i += 2; continue
+            if d == "'":
+                out.append(subject[pos + len(matched):]); i += 2; continue
+        out.append(c)
+        i += 1
+    return "".join(out)
+
+
+def _spec_replace(subject, search, repl, all_):
+    """22.1.3.19 / 22.1.3.20 with a string searchValue; repl is a template string or None for the recording function"""
+    positions = []
+    adv = max(1, len(search))
+    p = subject.find(search, 0)
+    while p != -1:
+        positions.append(p)
+        if not all_:
+            break
+        p = subject.find(search, p + adv) if p + adv <= len(subject) else -1
+    out, end = [], 0
+    for p in positions:
+        out.append(subject[end:p])
+        out.append(_subst(repl, search, p, subject) if repl is not None else f"<{search}@{p}/{len(subject)}>")
+        end = p + len(search)
+    out.append(subject[end:])
+    return "".join(out)
+
+
+def _spec_split(subject, sep, limit):
+    """22.1.3.23 with a string separator (None = undefined); limit already a Python number or None"""
+    import math
+    if limit is None:
+        lim = 2 ** 32 - 1
+    else:
+        lim = 0 if (limit != limit or limit in (math.inf, -math.inf)) else int(math.copysign(math.floor(abs(limit)), limit)) % 2 ** 32
+    if lim == 0:
+        return []
+    if sep is None:
+        return [subject]
+    if sep == "":
+        return list(subject)[:lim]
+    return subject.split(sep)[:lim]
+
+
+def _strpat_chunk(items):
+    import json
+    from microjs import Context
+    c = Context(time_limit=10)
+    bad = []
+    for kind, src, want in items:
+        try:
+            got = c.eval(src)
+        except Exception as e:  # noqa
+            got = "ERR " + type(e).__name__ + ": " + str(e)[:60]
+        if got != want:
+            bad.append((kind, src, repr(got)[:120], repr(want)[:120]))
+    return len(items), bad
+
+
+@groups.group(id="C16.bounded.string-patterns", prop="C16", kind="B", functions=["microjs.vm:VM._make_string_method.<split>", "microjs.vm:VM._make_string_method.<replace>",
+                                                                                  "microjs.vm:VM._make_string_method.<replaceAll>", "microjs.vm:VM._make_string_method.<concat>"])
+def c16_string_patterns(tier="quick", seed=0):
+    import json, multiprocessing as mp
+    J = json.dumps
+    recv = ["", "a", "abc", "aaa", "aaaa", "abab", "a.b.c", "$&x", "xx$1xx", "null1undefined", "a\nb", "\u00e9a\u00e9"]
+    search = ["", "a", "b", "ab", "aa", ".", "abc", "x", "$", "$1", "\u00e9"]
+    odd = [("1", "1"), ("null", "null"), ("undefined", "undefined"), ("true", "true"), ("1.5", "1.5"), ("-0", "0"), ("NaN", "NaN")]      # (primitive arguments; object arguments are outside the engine's documented conversions)
+    repls = ["x", "", "[$&]", "$$", "$1", "$`|$'", "$", "$$$&", "$&$&", "$<n>", "$0", "a$"]
+    items = []
+    for s in recv:
+        for q in search:
+            for r in repls:
+                items.append(("replace", f"{J(s)}.replace({J(q)}, {J(r)})", _spec_replace(s, q, r, False)))
+                items.append(("replaceAll", f"{J(s)}.replaceAll({J(q)}, {J(r)})", _spec_replaceAll(s, q, r)))
+            fn = "function (m, p, whole) { return '<' + m + '@' + p + '/' + whole.length + '>'; }"
+            items.append(("replace-fn", f"{J(s)}.replace({J(q)}, {fn})", _spec_replace(s, q, None, False)))
+            items.append(("replaceAll-fn", f"{J(s)}.replaceAll({J(q)}, {fn})", _spec_replace(s, q, None, True)))
+            items.append(("replaceAll-fn-calls", f"var n = 0; {J(s)}.replaceAll({J(q)}, function () {{ n++; return ''; }}); n", len([1 for _ in _occurrences(s, q)])))
+            for lim_js, lim in (("", None), (", undefined", None), (", 0", 0), (", 1", 1), (", 2", 2), (", -1", -1), (", 2.5", 2.5), (", '2'", 2), (", NaN", float("nan")), (", 4294967297", 4294967297), (", Infinity", float("inf"))):
+                items.append(("split", f"{J(s)}.split({J(q)}{lim_js})", _spec_split(s, q, lim)))
+        items.append(("split", f"{J(s)}.split()", [s]))
+        items.append(("split", f"{J(s)}.split(undefined, 0)", []))
+        for js_, txt in odd:
+            items.append(("coerced-pattern", f"{J(s)}.replace({js_}, 'R')", _spec_replace(s, txt, "R", False)))
+            items.append(("coerced-pattern", f"{J(s)}.replaceAll({js_}, 'R')", _spec_replace(s, txt, "R", True)))
+            if js_ != "undefined":
+                items.append(("coerced-pattern", f"{J(s)}.split({js_})", _spec_split(s, txt, None)))
+            items.append(("concat", f"{J(s)}.concat({js_}, 'z', {js_})", s + txt + "z" + txt))
+        items.append(("concat", f"{J(s)}.concat()", s))
+    chunks = [items[i::16] for i in range(16)]
+    with mp.get_context("fork").Pool(16) as pool:
+        rs = pool.map(_strpat_chunk, chunks)
+    counts, fails = {}, {}
+    for it in items:
+        counts[it[0]] = counts.get(it[0], 0) + 1
+    for n, bad in rs:
+        for kind, src, got, want in bad:
+            fails.setdefault(kind, []).append((src, got, want))
+    return [ob(f"C16.bounded.string-patterns.{k}", k not in fails, "B", f"{n} cases" if k not in fails else f"{len(fails[k])}/{n} differ: {fails[k][0][0][:120]} -> {fails[k][0][1]} expected {fails[k][0][2]}",
+               witness=(fails[k][0][0] if k in fails else None), confirmed=True if k in fails else None, domain=n) for k, n in sorted(counts.items())]
+
+
+def _occurrences(subject, search):
+    adv = max(1, len(search))
+    p = subject.find(search, 0)
+    while p != -1:
+        yield p
+        p = subject.find(search, p + adv) if p + adv <= len(subject) else -1
+
+
+def _spec_replaceAll(subject, search, repl):
+    return _spec_replace(subject, search, repl, True)
